@@ -1203,7 +1203,11 @@ def check_copy_ctors_complete(rule, db, cfgname, classes, exempt=()):
                 if f_["n"] not in covered:
                     miss.append(f_["n"] + (" (the copying loop runs only while its iterator equals end(): nothing is copied)" if any(pl[0] == f_["n"] for pl in partial_loops) else
                                            " (set to a constant)" if f_["n"] in const_only else " (not initialised from the source)"))
-            if miss:
+            delegates = any(n_["k"] == "call" and n_.get("ck") == "method" and n_.get("obj") is not None and c.nodes[n_["obj"]]["k"] == "this" and
+                            any(ms(cctx.key(a_)) for a_ in n_.get("args", [])) for _, n_ in c.walk(c.body))
+            if miss and delegates:
+                rule.unknown(site, c.loc(), "the copy constructor hands its source to a helper member function (not followed); members not seen copied here: %s" % ", ".join(miss), cfgname)
+            elif miss:
                 rule.bad(site, c.loc(), "the copy constructor does not take over: %s -- a copy behaves differently from its source" % ", ".join(miss), cfgname)
             else:
                 rule.ok(site, c.loc(), "every data member is initialised from the source", cfgname)
